@@ -34,7 +34,7 @@ fn is_extreme(x: f64) -> bool {
 }
 
 pub fn check(c: &Case, ctx: &mut Ctx) -> Result<(), Failure> {
-    let small_window = c.cfg.p.iter().sum::<usize>() <= 64;
+    let small_window = c.cfg.p.iter().all(|&q| q <= 64);
     let k = c.cfg.kind;
     let name = k.name();
     let p = c.cfg.params();
